@@ -9,6 +9,7 @@ ops (all stateless):
   {"op":"var","width":n,"dof":k,"x":q}               → {"v":q,"j":[unit row k]}   (variable leaf: identity block)
   {"op":"fn","name":"exp|log|tan|…","params":[q..],"a":q,"ja":[q..]} → {"v":q,"j":[q..]}  (`fnRuleF`, binary64)
   {"op":"pow2","a":q,"ja":[q..],"b":q,"jb":[q..]}    → {"v":q,"j":[q..]}   (`powRuleF`: a ** b, binary64)
+  {"op":"slice","trip":[[i,j,q]..],"rows":[..],"cols":[..]} → {"trip":[[a,b,q]..]}       (`sliceTrip`: sub-system)
   {"op":"norm","width":n,"vals":[q..],"jacs":[[q..]..]} → {"v":q,"j":[q..]}               (`normRowF`, binary64)
   division by zero / 0 to a negative power answers {"err":"singular"}, a non-finite binary64 result {"err":"nonfinite"}.
 -/
@@ -79,6 +80,15 @@ def step (_ : Unit) (j : Json) : R (Unit × Json) := do
     let jb ← fRats j "jb"
     if ja.length != jb.length then throw "row length mismatch" else
     pure ((), outRowF (nodeRow powRuleF (ratToFloat a) (ja.map ratToFloat) (ratToFloat b) (jb.map ratToFloat)))
+  | "slice" =>
+    let rows ← fNats j "rows"
+    let cols ← fNats j "cols"
+    let tj ← field j "trip" >>= jList (fun t => do
+      match t with
+      | .arr #[a, b, v] => pure ((← jNat a), (← jNat b), (← jRat v))
+      | _ => throw "bad triplet")
+    let out := sliceTrip tj rows cols
+    pure ((), obj [("trip", ofList (fun t => Json.arr #[ofNat t.1, ofNat t.2.1, ofRat t.2.2]) out)])
   | "norm" =>
     let w ← fNat j "width"
     let vals ← fRats j "vals"
